@@ -19,7 +19,8 @@ LEXEMES = {
     "$Underscore": lambda r: "_",
     "$Ident": lambda r: r.choice(IDENTS),
     "$TerminalIdent": lambda r: "$" + r.choice(["A", "Tok", "x9", "_t", "LParen"]),
-    "$OuterAttribute": lambda r: r.choice(["#[a]", "#[derive(Debug, Clone)]", "#[doc = \"é€😀\"]", "#[x({[]})]", "#[ ]"]),
+    "$OuterAttribute": lambda r: r.choice(["#[a]", "#[derive(Debug, Clone)]", "#[doc = \"é€😀\"]", "#[x({[]})]", "#[ ]", "#[€]", "#[日本語]",
+                                           "#[é(😀)]", "#[serde(rename = \"名前\")]"]),
     "$StartKw": lambda r: "start", "$StructKw": lambda r: "struct", "$EnumKw": lambda r: "enum", "$TerminalKw": lambda r: "terminal",
     "$Colon": lambda r: ":", "$DoubleColon": lambda r: "::", "$Comma": lambda r: ",",
     "$LParen": lambda r: "(", "$RParen": lambda r: ")", "$LCurly": lambda r: "{", "$RCurly": lambda r: "}",
